@@ -3,7 +3,7 @@ From Coq Require Import List ZArith QArith Bool Permutation Lia.
 From DD Require Import Model.Circuit Model.Query Model.Enumerate Proofs.Semantics Proofs.DetCert
      Proofs.CountsA Proofs.QueryDefs
      Proofs.C07Defs Proofs.C07Valid Proofs.C07Urs Proofs.C07Indep
-     Proofs.C07IdealDefs Proofs.C07Uniform Proofs.C07Align.
+     Proofs.C07IdealDefs Proofs.C07Uniform Proofs.C07Align Proofs.C07Final.
 Import ListNotations.
 Open Scope Z_scope.
 
@@ -267,3 +267,71 @@ Proof. vm_compute. repeat split. Qed.
 
 Example ex_clean : Clean ex_circ ex_s0.
 Proof. apply fresh_clean. Qed.
+
+(* ---------------------------------------------------------------------------------------------
+   FINAL forms of (3): the hypothesis exec_ok is a theorem (Proofs/ExecTemps.v, Proofs/C07Final.v)
+   for every WFQ circuit (WF + unique leaves + all nodes reachable + non-zero literals; all
+   established by check_wf: QueryDefs.check_wf_WFQ), every Clean scratch and every in-range A with
+   0 < MCA C n A.  Without 0 < MCA the temps part of exec_ok is false (C07_exec_ok_unsat_refuted:
+   the "unsatisfiable" core shortcut answers 0 without recomputing) and not needed: only the count
+   is used then. *)
+Theorem C07_exec_ok_holds : forall C n A s,
+  WFQ C n -> in_range n A -> Clean C s -> 0 < MCA C n A -> exec_ok C n A s.
+Proof. exact exec_ok_holds. Qed.
+Print Assumptions C07_exec_ok_holds.
+
+Theorem C07_exec_ok_unsat_refuted :
+  check_wf ex_core7 3 = true /\ MCA ex_core7 3 [-1] = 0 /\
+  exists s1, preprocess (build ex_core7 3) [-1] (fresh_scratch ex_core7) = Some s1 /\
+    nth 9 (temps (fst (execute_query (build ex_core7 3) [-1] s1))) 0 = 2 /\
+    nth 9 (countsA [-1] ex_core7) 0 = 0.
+Proof. exact exec_ok_unsat_refuted. Qed.
+Print Assumptions C07_exec_ok_unsat_refuted.
+
+Theorem C07_valid_final : forall C n A s,
+  WFQ C n -> (0 < n)%nat -> in_range n A -> Clean C s ->
+  forall amount chs, 0 <= amount -> 0 < MCA C n A ->
+  urs_choices_okb (build C n) A amount chs s = true ->
+  exists L, snd (fst (uniform_random_sampling (build C n) A amount chs s)) = Some L /\
+            length L = Z.to_nat amount /\
+            Forall (fun m => In m (ModelsA C n A)) L.
+Proof. exact uniform_random_sampling_valid_final. Qed.
+Print Assumptions C07_valid_final.
+
+(* None iff no model contains A or a literal is out of range (every stream, every list of non-zero
+   literals; the literal 0 is accepted by preprocess and ignored by the count, so it must be
+   excluded: C07_zero_literal_refuted) *)
+Theorem C07_unsat_final : forall C n A s amount chs,
+  WFQ C n -> (forall l, In l A -> l <> 0) -> Clean C s ->
+  (snd (fst (uniform_random_sampling (build C n) A amount chs s)) = None <->
+   MCA C n A = 0 \/ (exists l, In l A /\ Z.of_nat n < Z.abs l)).
+Proof. exact uniform_random_sampling_none_final. Qed.
+Print Assumptions C07_unsat_final.
+
+Theorem C07_zero_literal_refuted :
+  check_wf ex_circ 2 = true /\ MCA ex_circ 2 [0] = 0 /\
+  snd (fst (uniform_random_sampling (build ex_circ 2) [0] 0 [] (fresh_scratch ex_circ))) = Some [].
+Proof. vm_compute. repeat split. Qed.
+Print Assumptions C07_zero_literal_refuted.
+
+(* the call re-establishes the invariant of the scratch state *)
+Theorem C07_keeps_clean : forall C n A s amount chs,
+  WFQ C n -> (forall l, In l A -> l <> 0) -> Clean C s ->
+  Clean C (fst (fst (uniform_random_sampling (build C n) A amount chs s))).
+Proof. exact uniform_random_sampling_clean. Qed.
+Print Assumptions C07_keeps_clean.
+
+(* non-vacuity of the final forms *)
+Example ex_final_applies :
+  exists L, snd (fst (uniform_random_sampling (build ex_circ 2) [2] 3 ex_chs ex_s0)) = Some L /\
+            length L = 3%nat /\ Forall (fun m => In m (ModelsA ex_circ 2 [2])) L.
+Proof.
+  apply (C07_valid_final ex_circ 2 [2] ex_s0).
+  - apply check_wf_WFQ. vm_compute. reflexivity.
+  - lia.
+  - exact ex_in_range.
+  - exact ex_clean.
+  - lia.
+  - vm_compute. reflexivity.
+  - vm_compute. reflexivity.
+Qed.
